@@ -602,6 +602,91 @@ fn computed_targets() -> Stats {
     st
 }
 
+/// A user function may fail with any error, including the kinds the library produces itself; whatever it
+/// returns is *its* result: the call happens exactly once, its error is returned unchanged, nothing after it
+/// is evaluated (no retry with another argument shape, no fall-back to a builtin, no re-interpretation).
+fn error_kinds() -> Stats {
+    let mut st = Stats::new();
+    type MkErr = fn(&EV) -> EErr;
+    let kinds: Vec<(&str, MkErr)> = vec![
+        ("ExpectedTuple", |a| EvalexprError::expected_tuple(a.clone())),
+        ("ExpectedInt", |a| EvalexprError::expected_int(a.clone())),
+        ("ExpectedNumber", |a| EvalexprError::expected_number(a.clone())),
+        ("ExpectedString", |a| EvalexprError::expected_string(a.clone())),
+        ("ExpectedEmpty", |a| EvalexprError::expected_empty(a.clone())),
+        // not FunctionIdentifierNotFound: by the Context trait's contract that is how a context says "I have no
+        // such function", so the evaluator cannot tell it from a missing function (and falls back to a builtin)
+        ("VariableIdentifierNotFound", |_| EvalexprError::VariableIdentifierNotFound("x".into())),
+        ("WrongFunctionArgumentAmount", |_| EvalexprError::wrong_function_argument_amount(1, 2)),
+        ("WrongOperatorArgumentAmount", |_| EvalexprError::wrong_operator_argument_amount(1, 2)),
+        ("ContextNotMutable", |_| EvalexprError::ContextNotMutable),
+        ("DivisionError", |a| EvalexprError::DivisionError { dividend: a.clone(), divisor: Value::Int(0) }),
+        ("CustomMessage", |_| EvalexprError::CustomMessage("q".into())),
+    ];
+    // (source, calls before q, q's argument key, calls that must NOT happen afterwards)
+    let programs: Vec<(&str, Vec<&str>, &str)> = vec![
+        ("q(1)", vec![], "I1"),
+        ("q 1", vec![], "I1"),
+        ("q()", vec![], "E"),
+        ("q(1, 2)", vec![], "T[I1,I2]"),
+        ("q(\"ab\")", vec![], "S\"ab\""),
+        ("r(1); q(2); s(3)", vec!["r(I1)"], "I2"),
+        ("(r(1), q(2), s(3))", vec!["r(I1)"], "I2"),
+        ("q(r(1)) + s(2)", vec!["r(I1)"], "I1"),
+        ("x = q(5); s(1)", vec![], "I5"),
+        ("len(q(7))", vec![], "I7"),
+    ];
+    for (kname, mk) in &kinds {
+        for name in ["q", "len", "math::abs"] {
+            for (src, before, qarg) in &programs {
+                let src = src.replace("q(", &format!("{}(", name)).replace("q ", &format!("{} ", name)).replace("len(len(", &format!("typeof({}(", name));
+                for shared in [false, true] {
+                    let log: Log = Arc::new(Mutex::new(Vec::new()));
+                    let mut c = real_context(&[], &log);
+                    let l = log.clone();
+                    let mk = *mk;
+                    let fname = name.to_string();
+                    c.set_function(
+                        name.into(),
+                        Function::new(move |a| {
+                            l.lock().unwrap().push((fname.clone(), RV::from_ev(a)));
+                            Err(mk(a))
+                        }),
+                    )
+                    .unwrap();
+                    let res = if shared { guarded(|| evalexpr::eval_with_context(&src, &c)) } else { guarded(|| evalexpr::eval_with_context_mut(&src, &mut c)) };
+                    st.evaluations += 1;
+                    st.count("error-kind-programs");
+                    let got_calls = log_keys(&log.lock().unwrap());
+                    let mut want_calls: Vec<String> = before.iter().map(|s| s.to_string()).collect();
+                    want_calls.push(format!("{}({})", name, qarg));
+                    // on a shared context an assignment target does not matter: the right-hand side fails first
+                    // the error must be the one the function built from the argument it was (last) called with
+                    let last_arg: EV = log.lock().unwrap().iter().rev().find(|(n, _)| n == name).map(|(_, v)| v.to_ev()).unwrap_or(Value::Empty);
+                    let ok = match &res {
+                        Ok(Err(e)) => got_calls == want_calls && format!("{:?}", e) == format!("{:?}", mk(&last_arg)),
+                        _ => false,
+                    };
+                    if !ok {
+                        st.violation(Violation {
+                            property: ID,
+                            kind: "user-function-error-not-final".into(),
+                            input: json!({"axis": "error-kinds", "source": src, "context": 0, "function": name, "fails_with": kname, "shared_context": shared}),
+                            expected: format!("the function's own {} error, call log {:?}", kname, want_calls),
+                            actual: match &res {
+                                Ok(r) => format!("{:?} / call log {:?}", r, got_calls),
+                                Err(p) => format!("panic at {}: {}", p.location, p.message),
+                            },
+                            test: test_wrap("c08_replay", &format!("    // a user function `{}` that records its argument and fails with {}; evaluate {:?}\n", name, kname, src)),
+                        });
+                    }
+                }
+            }
+        }
+    }
+    st
+}
+
 pub fn run(cfg: &Cfg) -> Report {
     let (n_hash, n_script2, n_script1) = cfg.tier.pick((3, 1, 2), (3, 2, 3));
     let thorough = cfg.tier == Tier::Thorough;
@@ -647,6 +732,7 @@ pub fn run(cfg: &Cfg) -> Report {
     }
     stats.merge(scaling(cfg.tier == Tier::Thorough));
     stats.merge(computed_targets());
+    stats.merge(error_kinds());
     for src in ["r (1) + typeof (2) + s (3)", "false && r (1)", "x = 1 ; ( r (x) , x += 1 , s (x) ) ; 1 / 0 ; r (9)"] {
         let log: Log = Arc::new(Mutex::new(Vec::new()));
         let mut c = real_context(&[], &log);
@@ -663,7 +749,7 @@ pub fn run(cfg: &Cfg) -> Report {
     Report {
         property: ID,
         level: "model_checking",
-        rule: format!("axis 1: every program with <= {n_hash} operator nodes over {{x = e, y = e, x += e, x &&= e, r(e), s(e), typeof(e) (a failing user function that shadows a total builtin), -e, e + (missing operand), e + e, e && e, e || e, e / e, e < e, e == e (the two comparisons up to 2 operator nodes in the quick tier), (e, e), (e; e)}} and leaves {{1, 0, true, false, x, unbound u, (), 2.5, \" s \", 1/0, true+1}} (the float and the string up to 2 operator nodes in the quick tier) x 4 initial contexts (x unbound / int / boolean / empty tuple; the fourth up to 2 operator nodes in the quick tier) on the real HashMapContext with recording functions, each program through eval_with_context_mut, through the shared-context walker (result and call log against the reference in read-only mode) and, if it has effects, through all 7 typed mutable views (same final variables and call log: evaluated exactly once), and call-free programs through the context-free Node::eval / eval_int / eval_boolean / eval_empty / eval_float / eval_string (= a fresh mutable context); axis 2: the same programs (<= {n_script2} operator nodes with <= 2 deviations, <= {n_script1} with <= 1) against a scripted Context whose i-th answer (get_value / call_function / set_value) deviates from the default as chosen by a deviation-bounded depth-first exploration; oracle: reference interpreter driven by the same script (result, final variables, ordered call log with arguments, ordered sequence of context interactions). Plus 405 assignments whose left operand is a computed expression (9 left operands x 5 right operands x 9 assignment operators: left operand's calls, then the right operand's, first failure wins; the meaning of the assignment itself is not claimed). Plus scaling families: chains, tuples, unparenthesised chains of tuples in four separator patterns, sums, op-assign sequences and nested arguments of n recording calls for every n in 1..20 and up to 129 (quick) / 1..40 and up to 400 (thorough) with the failing call at every position (chosen positions above 20). States = (program, context) pairs explored on axis 2, transitions = scripted executions. Non-trivial = failing after effects, or >= 2 logged calls, or a deviating script; each (program, context, script) triple is enumerated exactly once, so the counter counts distinct cases"),
+        rule: format!("axis 1: every program with <= {n_hash} operator nodes over {{x = e, y = e, x += e, x &&= e, r(e), s(e), typeof(e) (a failing user function that shadows a total builtin), -e, e + (missing operand), e + e, e && e, e || e, e / e, e < e, e == e (the two comparisons up to 2 operator nodes in the quick tier), (e, e), (e; e)}} and leaves {{1, 0, true, false, x, unbound u, (), 2.5, \" s \", 1/0, true+1}} (the float and the string up to 2 operator nodes in the quick tier) x 4 initial contexts (x unbound / int / boolean / empty tuple; the fourth up to 2 operator nodes in the quick tier) on the real HashMapContext with recording functions, each program through eval_with_context_mut, through the shared-context walker (result and call log against the reference in read-only mode) and, if it has effects, through all 7 typed mutable views (same final variables and call log: evaluated exactly once), and call-free programs through the context-free Node::eval / eval_int / eval_boolean / eval_empty / eval_float / eval_string (= a fresh mutable context); axis 2: the same programs (<= {n_script2} operator nodes with <= 2 deviations, <= {n_script1} with <= 1) against a scripted Context whose i-th answer (get_value / call_function / set_value) deviates from the default as chosen by a deviation-bounded depth-first exploration; oracle: reference interpreter driven by the same script (result, final variables, ordered call log with arguments, ordered sequence of context interactions). Plus a user function (under its own name and under the names of two builtins) failing with each of 11 error kinds the library itself produces, in 10 call shapes on both walkers: called exactly once, its error returned unchanged, nothing evaluated after it. Plus 405 assignments whose left operand is a computed expression (9 left operands x 5 right operands x 9 assignment operators: left operand's calls, then the right operand's, first failure wins; the meaning of the assignment itself is not claimed). Plus scaling families: chains, tuples, unparenthesised chains of tuples in four separator patterns, sums, op-assign sequences and nested arguments of n recording calls for every n in 1..20 and up to 129 (quick) / 1..40 and up to 400 (thorough) with the failing call at every position (chosen positions above 20). States = (program, context) pairs explored on axis 2, transitions = scripted executions. Non-trivial = failing after effects, or >= 2 logged calls, or a deviating script; each (program, context, script) triple is enumerated exactly once, so the counter counts distinct cases"),
         nontrivial_set: "counter:nontrivial-distinct",
         exhaustive: true,
         bound_completed: format!("programs of {n_hash} operator nodes; 2 deviations up to {n_script2} nodes, 1 deviation up to {n_script1}"),
@@ -681,6 +767,13 @@ pub fn replay(case: &J) -> i32 {
     let input = &case["input"];
     let src = input["source"].as_str().unwrap_or_else(|| machinery_error("C08 replay: no source"));
     let ci = input["context"].as_u64().unwrap_or(0) as usize;
+    if input["axis"].as_str() == Some("error-kinds") {
+        let st = error_kinds();
+        let mut only = Stats::new();
+        only.evaluations = 1;
+        only.violations.extend(st.violations.into_iter().filter(|v| v.input["source"].as_str() == Some(src) && v.input["fails_with"] == input["fails_with"] && v.input["function"] == input["function"]));
+        return super::replay_verdict(ID, &only);
+    }
     if input["axis"].as_str() == Some("computed-target") {
         // the family is small: re-run it and report whether the recorded source still fails
         let st = computed_targets();
